@@ -21,6 +21,7 @@ import (
 	"io"
 	"math"
 	"net"
+	"sync"
 	"time"
 
 	apicommon "github.com/enfein/mieru/v3/apis/common"
@@ -56,6 +57,12 @@ type PacketUnderlay struct {
 
 	// ---- server fields ----
 	serverUsers *serveruser.Registry
+
+	// closedSessions remembers the sessions that were removed recently.
+	// A client that didn't receive the close session request keeps
+	// retransmitting the open session request. That must not create
+	// the session for the second time.
+	closedSessions sync.Map // map[uint32]int64, session ID to removal time
 }
 
 var _ Underlay = &PacketUnderlay{}
@@ -286,6 +293,27 @@ func (u *PacketUnderlay) onOpenSessionRequest(seg *segment, remoteAddr net.Addr)
 	_, found := u.sessionMap.Load(sessionID)
 	if found {
 		log.Debugf("%v received openSessionRequest, but session ID %d is already used", u, sessionID)
+		return nil
+	}
+	if _, closed := u.closedSessions.Load(sessionID); closed {
+		log.Debugf("%v received openSessionRequest, but session ID %d is closed", u, sessionID)
+		if seg.block != nil {
+			// Request the peer to close the session.
+			closeReq := &segment{
+				metadata: &sessionStruct{
+					baseStruct: baseStruct{
+						protocol: uint8(closeSessionRequest),
+					},
+					sessionID: sessionID,
+					seq:       math.MaxUint32, // not a clean close: the session state is unknown
+				},
+				transport: u.TransportProtocol(),
+				block:     seg.block,
+			}
+			if err := u.writeOneSegment(closeReq, remoteAddr); err != nil {
+				return fmt.Errorf("writeOneSegment() failed: %w", err)
+			}
+		}
 		return nil
 	}
 	session := newSessionWithServerUserPolicy(sessionID, false, u.MTU(), seg.serverUserPolicy, nil, u.trafficPattern)
@@ -854,6 +882,7 @@ func (u *PacketUnderlay) tryDecryptExistingSession(encryptedMeta []byte, addr ne
 }
 
 func (u *PacketUnderlay) cleanSessions() {
+	now := time.Now().UnixMicro()
 	u.sessionMap.Range(func(k, v any) bool {
 		session := v.(*Session)
 		select {
@@ -861,14 +890,25 @@ func (u *PacketUnderlay) cleanSessions() {
 			log.Debugf("Found closed %v", session)
 			if err := u.RemoveSession(session); err != nil {
 				log.Debugf("%v RemoveSession() failed: %v", u, err)
+			} else if !u.isClient {
+				u.closedSessions.Store(session.id, now)
 			}
 		default:
 		}
-		if time.Now().UnixMicro()-session.lastRXTime.Load() > idleSessionTimeout.Microseconds() {
+		if now-session.lastRXTime.Load() > idleSessionTimeout.Microseconds() {
 			log.Debugf("Found idle %v", session)
 			if err := u.RemoveSession(session); err != nil {
 				log.Debugf("%v RemoveSession() failed: %v", u, err)
+			} else if !u.isClient {
+				u.closedSessions.Store(session.id, now)
 			}
+		}
+		return true
+	})
+	u.closedSessions.Range(func(k, v any) bool {
+		// The peer gives up an idle session after idleSessionTimeout.
+		if now-v.(int64) > 2*idleSessionTimeout.Microseconds() {
+			u.closedSessions.Delete(k)
 		}
 		return true
 	})
